@@ -49,7 +49,7 @@ from hypothesis import strategies as st
 import nfc.clf
 
 from vlib import ref_crc, simchip, vsched
-from vlib.engine import HarnessError, Leg, Violation, unexpected
+from vlib.engine import HarnessError, Leg, Violation, unexpected, twin_O
 
 PROPERTY = "C13"
 LEVEL = "fault_enumeration"
@@ -1603,4 +1603,13 @@ LEGS = [
              "random driver x kind, working or unplugged link, and a random "
              "schedule choice list of up to 40 entries; same oracle and "
              "non-trivial rule."),
+]
+
+# the same searches under "python -O": a check of peer / device data that
+# rests on an assert statement validates nothing there
+_by = dict((lg.name, lg) for lg in LEGS)
+LEGS += [
+    twin_O(_by['status']),
+    twin_O(_by['hostfault']),
+    twin_O(_by['udp']),
 ]
